@@ -8,12 +8,16 @@ import (
 	"bytes"
 	"encoding/binary"
 	"fmt"
+	"os"
 	"path/filepath"
+	"reflect"
+	"strings"
 	"testing"
 
 	pb "github.com/golang/protobuf/proto"
 	"github.com/nats-io/nats.go"
 
+	"github.com/liftbridge-io/liftbridge/server/commitlog"
 	proto "github.com/liftbridge-io/liftbridge/server/protocol"
 )
 
@@ -67,13 +71,33 @@ func TestVerifC14Handlers(t *testing.T) {
 	fp := newFollower()
 	defer func() { fp.log.Close() }()
 
+	// one real frame (header + message with its CRC), as the leader's log holds it
+	var frameTmpl []byte
+	{
+		tl, err := commitlog.New(commitlog.Options{Path: filepath.Join(srv.dir, "frametmpl"), Name: "t", MaxSegmentBytes: 1 << 20})
+		if err != nil {
+			t.Fatal(err)
+		}
+		if _, err := tl.Append([]*commitlog.Message{{MagicByte: 1, Timestamp: 5, LeaderEpoch: fEpoch, Value: []byte("v"), Offset: -1}}); err != nil {
+			t.Fatal(err)
+		}
+		tl.Close()
+		frameTmpl, err = os.ReadFile(filepath.Join(srv.dir, "frametmpl", "00000000000000000000.log"))
+		if err != nil || len(frameTmpl) <= 28 {
+			t.Fatal("no frame template", err)
+		}
+	}
+
 	broken := map[string]bool{}
 	call := func(h string, data []byte) {
 		if broken[h] {
 			return // a handler that panicked may have left locks held; production would be dead already
 		}
 		stats[h]++
-		msg := &nats.Msg{Subject: "x", Reply: "", Data: data}
+		// nats.go hands the payload over in a buffer of exactly its length: no spare capacity behind it
+		exact := make([]byte, len(data))
+		copy(exact, data)
+		msg := &nats.Msg{Subject: "x", Reply: "", Data: exact}
 		p := vCatch(func() {
 			switch h {
 			case "handleReplicationResponse":
@@ -153,6 +177,25 @@ func TestVerifC14Handlers(t *testing.T) {
 		call("handlePropagatedRequest", mk(&proto.PropagatedRequest{Op: op}, func(m pb.Message) ([]byte, error) {
 			return proto.MarshalPropagatedRequest(m.(*proto.PropagatedRequest))
 		}))
+		// ... or that carry the body of ANOTHER operation (every *Op field is a candidate)
+		{
+			pr := &proto.PropagatedRequest{Op: proto.Op(r.intn(14))}
+			rv := reflect.ValueOf(pr).Elem()
+			var opFields []int
+			for fi := 0; fi < rv.NumField(); fi++ {
+				if f := rv.Type().Field(fi); strings.HasSuffix(f.Name, "Op") && f.Type.Kind() == reflect.Ptr && f.Type.Elem().Kind() == reflect.Struct {
+					opFields = append(opFields, fi)
+				}
+			}
+			if len(opFields) > 0 {
+				fi := opFields[r.intn(len(opFields))]
+				rv.Field(fi).Set(reflect.New(rv.Type().Field(fi).Type.Elem()))
+				stats["propagated/foreign-body"]++
+				call("handlePropagatedRequest", mk(pr, func(m pb.Message) ([]byte, error) {
+					return proto.MarshalPropagatedRequest(m.(*proto.PropagatedRequest))
+				}))
+			}
+		}
 		// arbitrary / truncated bytes to every handler
 		h := handlers[r.intn(len(handlers))]
 		call(h, r.bytesN(r.intn(24)))
@@ -165,7 +208,16 @@ func TestVerifC14Handlers(t *testing.T) {
 		next := fp.log.NewestOffset() + 1
 		body := r.bytesN(r.intn(12))
 		var ms []byte
-		switch r.pick(3, 3, 2, 2, 2) {
+		switch r.pick(3, 3, 2, 2, 2, 3) {
+		case 5: // whole, intact entries (real frames with a good CRC) followed by a fragment shorter than a header
+			for k := 0; k < 1+r.intn(3); k++ {
+				f := append([]byte{}, frameTmpl...)
+				proto.Encoding.PutUint64(f[0:], uint64(next+int64(k)))
+				proto.Encoding.PutUint64(f[16:], fEpoch)
+				ms = append(ms, f...)
+			}
+			ms = append(ms, vC14Entry(next+9, fEpoch, 3, nil)[:1+r.intn(27)]...)
+			stats["replresp/entries-then-fragment"]++
 		case 0: // shorter than or equal to one header
 			ms = vC14Entry(next, fEpoch, int32(r.intn(9)), nil)[:r.intn(29)]
 		case 1: // size field larger than the data
